@@ -674,7 +674,17 @@ fn worker<CH: Check>(
             return Ok(());
         }
         let mut t = Tape::new(&tape);
-        let case = check.build(&mut t, &cfg);
+        let case = match catch(|| check.build(&mut t, &cfg)) {
+            Ok(c) => c,
+            Err(p) => {
+                // a panicking generator is a harness bug, never a violation
+                let mut st = stats.borrow_mut();
+                if st.harness_errors.len() < 3 {
+                    st.harness_errors.push(format!("generator panicked: {}", p));
+                }
+                return Ok(());
+            }
+        };
         let (v, obs) = run_one(&*check, &case, &mut child.borrow_mut(), &args);
         if !failed.get() {
             stats.borrow_mut().record(&*check, &case, &obs);
